@@ -23,7 +23,7 @@ fn tree(r: &Path) -> Tree {
 }
 fn pattern(n: usize, salt: u8) -> Vec<u8> { (0..n).map(|i| ((i * 31 + i / 251) as u8) ^ salt).collect() }
 
-struct Env { dir: PathBuf, flags: std::cell::RefCell<Vec<String>> }
+struct Env { dir: PathBuf, flags: std::cell::RefCell<Vec<String>>, src_name: std::cell::RefCell<String> }
 impl Env {
     fn new(tagx: &str) -> Option<Env> {
         let d = std::env::temp_dir().join(format!("copia-verif-oneway-{}-{}", std::process::id(), tagx));
@@ -34,11 +34,13 @@ impl Env {
         std::fs::write(&shim, "#!/bin/bash\nshift\nif [ -n \"$COPIA_VERIF_REMOTE_FAULT\" ] && [[ \"$1\" == cat\\ \\$* ]]; then /bin/bash -c \"$1\" | head -c 1000; exit 255; fi\nexec /bin/bash -c \"$1\"\n").ok()?;
         use std::os::unix::fs::PermissionsExt;
         std::fs::set_permissions(&shim, std::fs::Permissions::from_mode(0o755)).ok()?;
-        Some(Env { dir: d, flags: std::cell::RefCell::new(vec![]) })
+        Some(Env { dir: d, flags: std::cell::RefCell::new(vec![]), src_name: std::cell::RefCell::new("src".into()) })
+    }
+    fn src(&self) -> PathBuf { self.dir.join(self.src_name.borrow().as_str())
     }
     /// source and destination trees of the scenario (sizes from 0 bytes to several 256 KiB transfer chunks)
     fn populate(&self, dst: &str) -> Option<()> {
-        let (s, d) = (self.dir.join("src"), self.dir.join(dst));
+        let (s, d) = (self.src(), self.dir.join(dst));
         let _ = std::fs::remove_dir_all(&s); let _ = std::fs::remove_dir_all(&d);
         std::fs::create_dir_all(s.join("sub")).ok()?; std::fs::create_dir_all(d.join("sub")).ok()?;
         std::fs::write(s.join("a.txt"), b"alpha-new\n").ok()?;
@@ -81,7 +83,7 @@ impl Env {
         Some(())
     }
     fn args(&self, dir: &str, dst: &str) -> Vec<String> {
-        let (s, d) = (self.dir.join("src").to_string_lossy().into_owned(), self.dir.join(dst).to_string_lossy().into_owned());
+        let (s, d) = (self.src().to_string_lossy().into_owned(), self.dir.join(dst).to_string_lossy().into_owned());
         let mut v = vec!["sync".to_string(), "-r".into(), "-j".into(), "1".into()];
         v.extend(self.flags.borrow().iter().cloned());
         match dir { "pull" => { v.push(format!("fakehost:{s}")); v.push(d); } "push" => { v.push(s); v.push(format!("fakehost:{d}")); } _ => { v.push(s); v.push(d); } }
@@ -170,6 +172,7 @@ pub fn remote_fault() -> Option<String> {
 // ---- C04: a successful run delivers exactly its plan (bounded: one tree of awkward names, five flag sets, three directions) ----
 const NAMES: [&str; 17] = ["nl\ndir/inside.txt", "report\\table.csv", "esc\\new\\0end", "plain.txt", "with space.txt", "quote'single.txt", "dq\"double.txt", "back\\slash.txt", "dollar$HOME.txt", "star*glob?.txt",
     "-leading-dash", "uni-\u{f8}-\u{6587}.txt", "new\nline.txt", "sub dir/nested file.txt", "sub dir/deep/x.log", ".hidden", "semi;colon&amp.txt"];
+const SIBLINGS: [&str; 14] = ["reports/q1.txt", "reports.txt", "reports-old/q1.txt", "reports old/q1.txt", "v1/x", "v1.1/notes", "v1+/y", "img/a.png", "img!/a.png", "ab/c", "ab.c", "a/b", "a.b", "a-b/c"];
 pub fn flag_sets() -> Vec<Vec<&'static str>> {
     vec![vec![], vec!["--delete"], vec!["--delete", "--exclude", "*.log"], vec!["--exclude", "sub dir"], vec!["--delete", "-j", "4"]]
 }
@@ -191,6 +194,9 @@ pub fn delivers_plan(dir: &str, fi: usize) -> Option<String> {
             _ => { let mut same = c.clone(); same[1] ^= 0x20; wr(&dr, n, &same, t0 - 500)?; }        // same size, different mtime
         }
     }
+    // names that are neighbours in byte order but not in path-component order (`reports/...` vs `reports.txt` vs `reports-old/...`):
+    // present and identical (bytes, size, mtime) on both sides - they are in no plan, whatever the flags
+    for (i, n) in SIBLINGS.iter().enumerate() { let c = format!("identical on both sides {i}").into_bytes(); wr(&sr, n, &c, t0 - 77)?; wr(&dr, n, &c, t0 - 77)?; }
     for (i, n) in ["stale.txt", "stale new\nline", "sub dir/stale.log", "only here/old file"].iter().enumerate() { wr(&dr, n, format!("stale {i}").as_bytes(), t0 - 1000)?; }
     let flags = flag_sets()[fi.min(flag_sets().len() - 1)].clone();
     let excludes: Vec<String> = flags.iter().enumerate().filter(|(i, _)| *i > 0 && flags[i - 1] == "--exclude").map(|(_, x)| x.to_string()).collect();
@@ -262,26 +268,36 @@ pub fn run_plan(w: &str) -> i32 {
 
 /// C14: right after a successful run, the same command again transfers nothing and changes nothing (bytes and whole-second
 /// mtimes), in this direction. Source mtimes include a sub-second part, the epoch itself and a far-future value.
-pub fn second_run_is_noop(dir: &str) -> Option<String> {
-    let env = Env::new(&format!("noop{dir}"))?;
-    env.populate("dst")?;
-    let src = env.dir.join("src");
+/// root directory names a shell would trip over (quotes of both kinds, a backslash, a space, a dollar sign)
+pub const ROOTS: [(&str, &str); 4] = [("src", "dst"), ("the source's", "bob's backup"), ("src \"quoted\" $HOME", "back\\slash dst"), ("src", "it's 'twice' quoted")];
+pub fn second_run_is_noop(dir: &str) -> Option<String> { for ri in 0..ROOTS.len() { if let Some(w) = second_run_is_noop_r(dir, ri) { return Some(w); } } None }
+pub fn second_run_is_noop_r(dir: &str, ri: usize) -> Option<String> {
+    let env = Env::new(&format!("noop{dir}{ri}"))?;
+    let (sname, dname) = ROOTS[ri.min(ROOTS.len() - 1)];
+    *env.src_name.borrow_mut() = sname.to_string();
+    let dir_l = if ri == 0 { dir.to_string() } else { format!("{dir}, roots named {sname:?} -> {dname:?}") };
+    let r = second_run_is_noop_in(&env, dir, dname);
+    r.map(|w| w.replacen(&format!("[{dir}]"), &format!("[{dir_l}]"), 1))
+}
+fn second_run_is_noop_in(env: &Env, dir: &str, dname: &str) -> Option<String> {
+    env.populate(dname)?;
+    let src = env.src();
     let set = |p: &str, secs: u64, nanos: u32| { if let Ok(f) = std::fs::File::options().write(true).open(src.join(p)) { let _ = f.set_modified(std::time::UNIX_EPOCH + std::time::Duration::new(secs, nanos)); } };
     // names ending in white space (a listing parser that trims its records loses them)
     for n in ["draft ", "tab\t", "sub/trailing newline\n"] { let _ = std::fs::write(src.join(n), b"x"); }
     set("a.txt", 1_600_000_000, 750_000_000); set("empty", 0, 0); set("sub/big.bin", 4_000_000_000, 1); set("sub/small.bin", 1_700_000_000, 999_999_999); set("draft ", 500, 500_000_000);
     let stamp = |r: &Path| -> BTreeMap<String, (Vec<u8>, u64)> { tree(r).into_iter().map(|(p, b)| { let m = std::fs::metadata(r.join(&p)).and_then(|m| m.modified()).ok().and_then(|t| t.duration_since(std::time::UNIX_EPOCH).ok()).map(|d| d.as_secs()).unwrap_or(0); (p, (b, m)) }).collect() };
-    let (rc, out) = env.run(dir, "dst");
+    let (rc, out) = env.run(dir, dname);
     if rc != Some(0) { let _ = out; return None; }      // the property speaks about what follows a SUCCESSFUL run
-    let (d1, s1) = (stamp(&env.dir.join("dst")), stamp(&src));
+    let (d1, s1) = (stamp(&env.dir.join(dname)), stamp(&src));
     let inodes = |r: &Path| -> BTreeMap<String, u64> { use std::os::unix::fs::MetadataExt; tree(r).keys().filter_map(|p| std::fs::metadata(r.join(p)).ok().map(|m| (p.clone(), m.ino()))).collect() };
-    let i1 = inodes(&env.dir.join("dst"));
+    let i1 = inodes(&env.dir.join(dname));
     for (p, (b, m)) in &s1 { match d1.get(p) { Some((b2, m2)) if b2 == b && m2 == m => {}, o => return Some(format!("[{dir}] after a successful run `{p}` at the destination has mtime {:?}, the source has {m} (whole seconds): the next quick check cannot match it (C14)", o.map(|x| x.1))) } }
-    let (rc2, out2) = env.run(dir, "dst");
+    let (rc2, out2) = env.run(dir, dname);
     if rc2 != Some(0) { return Some(format!("[{dir}] the second run failed (exit {rc2:?}) (C14)")); }
-    if stamp(&env.dir.join("dst")) != d1 || stamp(&src) != s1 { return Some(format!("[{dir}] the second run changed a file or an mtime (C14)")); }
+    if stamp(&env.dir.join(dname)) != d1 || stamp(&src) != s1 { return Some(format!("[{dir}] the second run changed a file or an mtime (C14)")); }
     // a transfer publishes by rename: a re-sent file has a new inode, whatever the run prints
-    let i2 = inodes(&env.dir.join("dst"));
+    let i2 = inodes(&env.dir.join(dname));
     if let Some(p) = i1.keys().find(|p| i2.get(*p) != i1.get(*p)) { return Some(format!("[{dir}] running the same command again right after a successful run transferred `{}` again (the destination file was replaced): {} (C14)", p.replace('\n', "<LF>").replace('\t', "<TAB>"), out2.lines().find(|l| l.starts_with("Plan")).unwrap_or(""))); }
     None
 }
